@@ -242,7 +242,7 @@ Section Agree.
         destruct (Hrec _ _ _ _ _ Hd I R) as (a1 & m1 & S1 & C1 & W1 & K1 & L1).
         pose proof (Hrn _ _ _ _ _ Hd I R) as (I1 & _).
         destruct (IH _ _ _ Hl I1 D) as (a2 & m2 & S2 & C2 & W2 & K2 & L2).
-        pose proof (compile_deps_names g inv mc fixed init Hwf Hclean (cmp f) i n comb ck Hrn _ _ _ _ Hl I1 D) as (I2 & _).
+        pose proof (compile_deps_names init (cmp f) i n comb ck Hrn _ _ _ _ Hl I1 D) as (I2 & _).
         exists (a1 ++ a2), (m2 ++ m1). split; [|split; [|split; [|split]]].
         - rewrite S2, S1. now rewrite app_assoc.
         - rewrite C2, C1. now rewrite app_assoc.
@@ -264,33 +264,51 @@ Section Agree.
         { destruct ids1; [destruct n; [split; auto|discriminate]|split; [exact H|discriminate]]. }
         destruct H' as [H' Hz]. clear H.
         destruct (compile_deps (cmp f) n comb ck l st1) as [st2' l0|] eqn:D; [|discriminate].
-        inversion H'; subst st2'. clear H'.
+        inversion H'; subst st2' ds. clear H'.
         eapply (Step _ st1 ids1 (fun l0 => DShuf (hd 0 ids1) (dexpand d) ck :: l0) R l0 D); auto.
         intros F L1 L2. simpl. rewrite S, L1.
         destruct ids1; [rewrite (Hz eq_refl) in *|]; rewrite L2; reflexivity.
       + destruct (cmp f (dtarget d) part0 st) as [st1 ids1|] eqn:R; [|discriminate].
         destruct (negb (List.length ids1 =? n)) eqn:Len; [discriminate|].
         destruct (compile_deps (cmp f) n comb ck l st1) as [st2' l0|] eqn:D; [|discriminate].
-        inversion H; subst st2'. clear H.
+        inversion H; subst st2' ds. clear H.
         eapply (Step _ st1 ids1 (fun l0 => DPer ids1 (dexpand d) :: l0) R l0 D); auto.
         intros F L1 L2. simpl. rewrite S, L1, Len, L2. reflexivity.
+  Qed.
+
+  Lemma compile_result_env rts p st e :
+    compile_result inv fixed rts p (mkSt (sstore st) (snamer st) (smemo st) e)
+    = match compile_result inv fixed rts p st with
+      | COk s' ids => COk (mkSt (sstore s') (snamer s') (smemo s') e) ids
+      | CFail x => CFail x
+      end.
+  Proof.
+    unfold compile_result. cbn [sstore snamer smemo senv].
+    destruct (existsb _ rts); [reflexivity|].
+    destruct (negb (is_shuffle p)); [reflexivity|].
+    destruct rts; [reflexivity|]. destruct (namer_new _ _). reflexivity.
+  Qed.
+
+  Lemma compile_result_store rts p st st' ids :
+    compile_result inv fixed rts p st = COk st' ids ->
+    senv st' = senv st /\ exists a, sstore st' = sstore st ++ a.
+  Proof.
+    unfold compile_result.
+    destruct (existsb _ rts); [discriminate|].
+    destruct (negb (is_shuffle p)).
+    - intro H; inversion H; subst. split; auto. exists []. now rewrite app_nil_r.
+    - destruct rts; [discriminate|]. destruct (namer_new _ _).
+      intro H; inversion H; subst. simpl. split; auto. eexists; reflexivity.
   Qed.
 
   Lemma result_lock rts p st st' ids :
     compile_result inv fixed rts p st = COk st' ids ->
     lock (compile_result inv fixed rts p) st st' ids.
   Proof.
-    intro H. unfold compile_result in H.
-    destruct (existsb _ rts) eqn:Ex; [discriminate|].
-    destruct (negb (is_shuffle p)) eqn:S.
-    - inversion H; subst. exists [], []. rewrite app_nil_r. repeat split; auto.
-      + intros k [].
-      + intros F _. unfold compile_result. simpl. rewrite Ex, S. reflexivity.
-    - destruct rts as [|r0 rts']; [discriminate|].
-      destruct (namer_new (snamer st) _) as [opn nm] eqn:Nm. inversion H; subst st' ids; clear H.
-      eexists; exists []. simpl. split; [reflexivity|]. split; [reflexivity|]. split; [reflexivity|].
-      split; [intros k []|].
-      intros F _. unfold compile_result. simpl. rewrite Ex, S, Nm. reflexivity.
+    intro H. destruct (compile_result_store _ _ _ _ _ H) as (He & a & Hs).
+    exists a, []. rewrite He. repeat split; auto.
+    - intros k [].
+    - intros F _. unfold with_env. rewrite compile_result_env, H. reflexivity.
   Qed.
 
   Lemma slices_lock f i p st st' ids : i <= f -> rec_lock f i ->
@@ -409,3 +427,35 @@ Section Agree.
         intros F Ag. simpl. rewrite M, R. rewrite (L1 F Ag). reflexivity.
   Qed.
 End Agree.
+
+(* ================= the driver and the holder of its frozen environment ================= *)
+Theorem driver_frozen_agree : forall g g' inv mc fixed init env st roots,
+  wf_dag g -> (forall i, clean (nop (get_node g i))) -> same_but_cache g g' ->
+  compile_gen fixed g inv mc init env = COk st roots ->
+  compile_gen fixed g' inv mc init (freeze (senv st))
+  = COk (mkSt (sstore st) (snamer st) (smemo st) (freeze (senv st))) roots.
+Proof.
+  intros g g' inv mc fixed init env st roots Hwf Hclean Hsame Hc.
+  rewrite <- (compile_env_frozen g g' inv mc fixed Hsame init (freeze (senv st)) eq_refl).
+  unfold compile_gen in *.
+  assert (I0 : inv_names init (init_state init env)).
+  { exists []. simpl. split; [now rewrite app_nil_r|]. split; constructor. }
+  assert (Hlt : pred (List.length g) < S (List.length g)) by lia.
+  destruct (lock_main g inv mc fixed init Hwf Hclean _ _ _ _ _ _ Hlt I0 Hc) as (a & marks & _ & _ & _ & _ & L).
+  apply (L (ecached (senv st))).
+  intros t _ op. reflexivity.
+Qed.
+
+(* what the transport fix buys: once the shipped environment is frozen, every
+   worker compiles the driver's graph, whatever its caches say *)
+Theorem worker_agrees_when_transport_freezes : forall g g' inv mc init st roots,
+  transport_freezes_env = true ->
+  wf_dag g -> (forall i, clean (nop (get_node g i))) -> same_but_cache g g' ->
+  compile_top g inv mc init empty_env = COk st roots ->
+  compile_top g' inv mc init (transported_env empty_env (senv st))
+  = COk (mkSt (sstore st) (snamer st) (smemo st) (freeze (senv st))) roots.
+Proof.
+  intros g g' inv mc init st roots Hfix Hwf Hclean Hsame Hc.
+  unfold transported_env. rewrite Hfix.
+  exact (driver_frozen_agree g g' inv mc result_shuffle_fixed init empty_env st roots Hwf Hclean Hsame Hc).
+Qed.
